@@ -184,11 +184,19 @@ def _real_missing(a: dict):
     want = CODES[cls] if cls else None
     state_after = cur.sqlstate
     bad = got != want or state_after != (want[1] if want else None) or (want is not None and (conn.database, conn.schema, conn.database_set, conn.schema_set) != before)
-    # the next successful execute resets sqlstate
-    cur.execute("select 1")
+    # the next execute resets sqlstate - a successful one, or one that stops early for a non-Snowflake reason
+    follow = a.get("follow", 0)
+    if follow >= 3:
+        bad_sql = ["select (", "select 'abc", "select to_decimal(a, 'TM9') from t1"][follow - 3]
+        try:
+            cur.execute(bad_sql)
+        except Exception:  # noqa: BLE001
+            pass
+    else:
+        cur.execute("select 1")
     reset = cur.sqlstate
     bad = bad or reset is not None
-    return bad, f"real stack: {sql!r} -> {got}, sqlstate {state_after}, expected {want}; sqlstate after the next successful execute: {reset}"
+    return bad, f"real stack: {sql!r} -> {got}, sqlstate {state_after}, expected {want}; sqlstate after the next execute (follow-up {follow}): {reset}"
 
 
 REGISTRY["C07.missing_or_duplicate_reference"].real_replay = _real_missing
@@ -316,3 +324,30 @@ def closed_connection(ei: int, had_result: bool) -> bool:
     post: _
     """
     return done(fast.native(_closed, fast.pick(ei, len(ENTRY)), bool(fast.pick(had_result, 2))))
+
+
+# ------------------------------------------------------------------ independence of what happened before (shared harness)
+import obligations.shared_independence as _indep  # noqa: E402
+
+_IND_PRIORS = (1, 2, 3)
+
+
+@ob(
+    "C07.a_failed_statement_changes_nothing_for_the_next",
+    encodes=["fakesnow.cursor.FakeSnowflakeCursor.execute/_transform/_execute/description/fetch*", "fakesnow.conn / fakesnow.variables / fakesnow.transforms (any state kept between statements)"],
+    bounds="prior activity: one of 3 failing statements (unknown table, undefined variable, object already exists); then one of " + str(len(_indep.SUBJECTS)) + " statements (queries, DML, DDL with metadata, COMMENT, "
+    "DESCRIBE, SHOW, USE, SET, MERGE, seeded RANDOM, BEGIN, a nop_regexes match, two failing statements, TRUNCATE) on the same or another cursor, tuple or "
+    "dict: SQL reaching the engine, rows, rowcount, description names, error, sqlstate, session context and the statement's own effect on catalog, "
+    "metadata and variables equal those on a fresh identical session",
+    timeout=(300, 600),
+    stubs=["K1/K2/K6 vf.duckstub.Engine"],
+    shards=(11, 11),
+)
+def independence(si: int, pk: int, as_dict: bool, same_cursor: bool) -> bool:
+    """
+    pre: 0 <= si < len(_indep.SUBJECTS) and 0 <= pk < len(_IND_PRIORS) and (SHARD < 0 or si % 11 == SHARD)
+    post: _
+    """
+    from vf import fast as _f
+
+    return done(_f.native(_indep.independent, _f.pick(si, len(_indep.SUBJECTS)), _IND_PRIORS[_f.pick(pk, len(_IND_PRIORS))], bool(_f.pick(as_dict, 2)), bool(_f.pick(same_cursor, 2))))
